@@ -667,6 +667,7 @@ func TestRun(t *testing.T) {
 		return
 	}
 	stress(rec, seed)
+	wiring(rec, vr.Scale(6, 200))
 	rec.Assume("reference limiter: per-path counter + FIFO, total limit as a FIFO semaphore; release order on return = total slot first, then the endpoint slot (passes to the head waiter)")
 }
 
